@@ -117,7 +117,7 @@ class Gen:
         choices = [(2.0, "log"), (1.0, "def"), (0.8, "assign")]
         if depth > 0:
             choices += [(1.2, "if"), (p["loops"], "for"), (p["loops"] * 0.5, "while"), (p["errors"], "try"), (p["funcs"], "func"),
-                        (p["comps"], "comp"), (p["alias"], "alias"), (p["calls"], "call")]
+                        (p["comps"], "comp"), (p["alias"], "alias"), (p["calls"], "call"), (p["calls"] * 0.6 + p["alias"] * 0.2, "method")]
         if ctx["loop"]:
             choices += [(p["exits"], "break"), (p["exits"], "continue")]
         if ctx["func"]:
@@ -127,6 +127,8 @@ class Gen:
         self.features.add(k)
         if k == "log":
             return ["append(log, %s)" % self.intexpr(ctx)]
+        if k == "method":
+            return self.method(ctx)
         if k == "def":
             v = self.fresh("v")
             ctx["vars"][v] = "int"
@@ -282,6 +284,40 @@ class Gen:
             return ["def %s = %s" % (g, callsrc), "append(log, %s())" % g, "append(log, %s())" % g]
         return ["append(log, %s)" % callsrc]
 
+    def method(self, ctx):
+        """an object with a method taking defaulted parameters, called through obj->m(...) with named / mixed arguments, the
+        same call expression evaluated several times (loop, repeated function call)"""
+        r = self.r
+        o, i = self.fresh("o"), self.fresh("i")
+        params = ["j", "k", "l"][:r.randint(2, 3)]
+        sig = ", ".join("%s = %d" % (q, n) for n, q in enumerate(params))
+        out = ["def %s = <* base = %s, m = fn(self, %s) [self->base, %s] *>" % (o, self.intexpr(ctx, 1), sig, ", ".join(params))]
+        style = r.choice(["named-last", "named-last", "named-shuffled", "mixed", "named-first-only", "positional"])
+        self.features.add("method:" + style)
+        if style == "named-last":
+            args = "%s = %s" % (params[-1], i)
+        elif style == "named-shuffled":
+            qs = list(params)
+            r.shuffle(qs)
+            args = ", ".join("%s = %s + %d" % (q, i, n) for n, q in enumerate(qs))
+        elif style == "mixed":
+            args = "%s, %s = %s" % (self.intexpr(ctx, 0), params[-1], i)
+        elif style == "named-first-only":
+            args = "%s = %s" % (params[0], i)
+        else:
+            args = ", ".join([i] * len(params))
+        call = "%s->m(%s)" % (o, args)
+        how = r.choice(["loop", "loop", "func", "comp"])
+        if how == "loop":
+            out.append("for %s in [1, 2, 3] do append(log, %s) end" % (i, call))
+        elif how == "comp":
+            out.append("append(log, [%s for %s in [4, 5, 6]])" % (call, i))
+        else:
+            f = self.fresh("f")
+            out.append("def %s(%s) %s" % (f, i, call))
+            out.append("append(log, [%s(1), %s(2), %s(3)])" % (f, f, f))
+        return out
+
     def comp(self, ctx):
         r = self.r
         it, hdr, kind, what = self.iterable(ctx)
@@ -301,9 +337,12 @@ class Gen:
         elif form == "map":
             e = "<<< %s => %s for %s in %s%s%s >>>" % (x if kind != "list" else "length(%s)" % x, val, x, what, it, cond)
         else:
-            y = self.fresh("y")
-            l2 = self.intlist(r.randint(0, 3))
-            e = "[[%s, %s] for %s in %s%s %sfor %s in %s]" % (val, y, x, what, it, "also " if form == "par" else "", y, l2)
+            # the second generator has its own collection kind and keys/values/entries qualifier
+            it2, y, kind2, what2 = self.iterable(ctx)
+            if y.startswith("[") or r.random() < 0.3:
+                it2, y, what2 = self.intlist(r.randint(0, 3)), self.fresh("y"), ""
+            br = ("[", "]") if r.random() < 0.75 else ("<<", ">>")
+            e = "%s[%s, %s] for %s in %s%s %sfor %s in %s%s%s" % (br[0], val, y, x, what, it, "also " if form == "par" else "", y, what2, it2, br[1])
         v = self.fresh("v")
         ctx["vars"][v] = "list"
         return ["def %s = %s" % (v, e), "append(log, %s)" % v]
